@@ -16,8 +16,10 @@ Expression  `(E name begin end ANY)`; ANY / queries as above with type *names* i
             AnyExpression, `(coll (ANY ANY)*)`.
 
 ops
-  `rt P`   client proto P:  answer `E | P' | E' | P'' | eq`  (ExpressionFromProto(P); E.ToProto(); ExpressionFromProto(P');
-           E'.ToProto(); E.Equal(E')), each field the S-expression or `err` / `panic`, `-` once a stage failed
+  `rt P`   client proto P:  answer `E | P' | E' | P'' | eq | raw`  (ExpressionFromProto(P); E.ToProto(); ExpressionFromProto(P');
+           E'.ToProto(); E.Equal(E'); P'' = P' with polygon loops as they are), each field the S-expression or `err` / `panic`,
+           `-` once a stage failed.  Polygon loops are printed in a canonical form (start at the smallest vertex, fixed
+           direction, loops sorted): S2 re-orients and re-orders them when it builds the polygon
   `ex E`   server-side expression E:  answer `P | E' | P'' | eq`
 The model recomputes every stage from the implementation's previous stage (so one disagreement does not cascade);
 the property predicate — E' = E, P'' = P', Go's Equal says so too — is evaluated on the implementation's answers
@@ -446,11 +448,12 @@ def step (_ : Unit) (op impl : String) : Unit × Verdict :=
   let v : Verdict :=
     if op.startsWith "rt " then
       match (readSExp (sdrop op 3)).bind decNodeP, fields with
-      | some p, [f1, f2, f3, f4, eq] =>
+      | some p, [f1, f2, f3, f4, eq, raw] =>
         let inDomain := p.wire
-        -- the property on the implementation's own answers
+        -- the property on the implementation's own answers (`raw`: the second proto equals the first also in
+        -- the orientation and order of polygon loops, which the canonical printing hides)
         let holds := !inDomain || !isSExp f1 ||
-          (isSExp f2 && f3 == f1 && f4 == f2 && (eq == "1" || mentionsNaN f1))
+          (isSExp f2 && f3 == f1 && f4 == f2 && (eq == "1" || mentionsNaN f1) && (raw == "1" || mentionsCap f1))
         if !holds then failVerdict "wire-roundtrip" f1 f3 f2 f4 else
         let m1 := rR rExpr (p.fromProto id)
         match stage "E" m1 f1 true with
